@@ -27,7 +27,15 @@ def load_body(job):
     mod = importlib.import_module(job["module"])
     if hasattr(mod, "warmup"):
         mod.warmup()
-    return getattr(mod, job["factory"])(**job.get("params", {}))
+    params = dict(job.get("params", {}))
+    pins = params.pop("_pins", None)
+    body = getattr(mod, job["factory"])(**params)
+    if pins:
+        def pinned(c, body=body, pins=pins):
+            c.pins = pins
+            return body(c)
+        return pinned
+    return body
 
 
 def _twin(body):
